@@ -491,9 +491,11 @@ func (f *frFill) eth(dstBroadcast bool) (string, string, []string) {
 
 type frOut struct{ b bytes.Buffer }
 
-func (o *frOut) def(name, typ, val string) { fmt.Fprintf(&o.b, "Definition fc_%s : %s := %s.\n", name, typ, val) }
-func (o *frOut) z(name, val string)        { o.def(name, "Z", val) }
-func (o *frOut) note(s string)             { fmt.Fprintf(&o.b, "\n(* %s *)\n", s) }
+func (o *frOut) def(name, typ, val string) {
+	fmt.Fprintf(&o.b, "Definition fc_%s : %s := %s.\n", name, typ, val)
+}
+func (o *frOut) z(name, val string) { o.def(name, "Z", val) }
+func (o *frOut) note(s string)      { fmt.Fprintf(&o.b, "\n(* %s *)\n", s) }
 
 func frZList(xs []string) string { return "[" + strings.Join(xs, "; ") + "]" }
 
@@ -960,6 +962,246 @@ func genFrameCLI(o *frOut) {
 		if !ok || stringLitFr(p, e[1]) != "" {
 			die("%s: --payload does not default to the empty string", k.recv)
 		}
+		getter := map[string]string{"icmp": "getICMPOptions", "udp": "getUDPOptions"}[k.pre]
+		o.note("command/" + k.pre + ".go: flag name, filler option it reaches, raw string parser in between, when it is passed")
+		o.def(k.pre+"_cli_chain", "list (string * string * string * string)", frZList(frCliChain(p, k.recv, k.pre, getter)))
+	}
+}
+
+// frCliChain composes, for one of `sx icmp` / `sx udp`:  flag name -> options field (initCliFlags) -> [raw string
+// parser -> parsed field (parseRawOptions)] -> With* constructor fed with that field (get*Options).
+func frCliChain(p *pkgFiles, recv, pkg, getter string) []string {
+	flags := frCliDefaults(p, recv)
+	// parseRawOptions:  o.X, err = parser(o.rawY)
+	parsed := map[string][2]string{} // raw field -> (parsed field, parser)
+	ast.Inspect(p.findFunc(recv, "parseRawOptions").Body, func(n ast.Node) bool {
+		as, ok := n.(*ast.AssignStmt)
+		if !ok || len(as.Lhs) != 2 || len(as.Rhs) != 1 {
+			return true
+		}
+		c, ok := as.Rhs[0].(*ast.CallExpr)
+		if !ok || len(c.Args) != 1 {
+			return true
+		}
+		fn, ok := c.Fun.(*ast.Ident)
+		l, ok2 := as.Lhs[0].(*ast.SelectorExpr)
+		a, ok3 := c.Args[0].(*ast.SelectorExpr)
+		if ok && ok2 && ok3 {
+			parsed[a.Sel.Name] = [2]string{l.Sel.Name, fn.Name}
+		}
+		return true
+	})
+	// getter: pkg.WithX(o.field)
+	withOf := map[string]string{}
+	guarded := map[string]bool{}
+	g := p.findFunc(recv, getter)
+	var walk func(n ast.Node, inIf bool)
+	walk = func(n ast.Node, inIf bool) {
+		ast.Inspect(n, func(m ast.Node) bool {
+			if is, ok := m.(*ast.IfStmt); ok && m != n {
+				// only  if len(o.<payload field>) > 0 { ... }
+				c, ok := is.Cond.(*ast.BinaryExpr)
+				good := ok && c.Op == token.GTR && is.Else == nil && is.Init == nil
+				if good {
+					lc, ok := c.X.(*ast.CallExpr)
+					good = ok && len(lc.Args) == 1
+					if good {
+						id, ok := lc.Fun.(*ast.Ident)
+						good = ok && id.Name == "len"
+					}
+					if lit, ok := c.Y.(*ast.BasicLit); !ok || lit.Value != "0" {
+						good = false
+					}
+				}
+				if !good {
+					die("%s: unexpected condition in %s", p.pos(is), getter)
+				}
+				walk(is.Body, true)
+				return false
+			}
+			c, ok := m.(*ast.CallExpr)
+			if ok && frIsSel(c.Fun, pkg, "") && len(c.Args) == 1 {
+				w := c.Fun.(*ast.SelectorExpr).Sel.Name
+				a, ok := c.Args[0].(*ast.SelectorExpr)
+				if !ok {
+					die("%s: argument of %s is not a field", p.pos(c), w)
+				}
+				if _, dup := withOf[a.Sel.Name]; dup {
+					die("%s: field %s feeds two options", p.pos(c), a.Sel.Name)
+				}
+				withOf[a.Sel.Name] = w
+				guarded[w] = inIf
+			}
+			return true
+		})
+	}
+	walk(g.Body, false)
+	var names []string
+	for nm := range flags {
+		names = append(names, nm)
+	}
+	sort.Strings(names)
+	var rows []string
+	for _, nm := range names {
+		s, ok := flags[nm][0].(*ast.SelectorExpr)
+		if !ok {
+			die("flag --%s does not target a field", nm)
+		}
+		field, parser := s.Sel.Name, ""
+		if pr, ok := parsed[field]; ok {
+			field, parser = pr[0], pr[1]
+		}
+		w, ok := withOf[field]
+		if !ok {
+			continue // not a packet option (json, iface, rate, ...)
+		}
+		gd := "always"
+		if guarded[w] {
+			gd = "if-nonempty"
+		}
+		rows = append(rows, fmt.Sprintf("(%s, %s, %s, %s)", coqString(nm), coqString(w), coqString(parser), coqString(gd)))
+	}
+	return rows
+}
+
+// frWithCall requires e to be tcp.With<X>() and returns "With<X>".
+func frWithCall(p *pkgFiles, e ast.Expr) string {
+	c, ok := e.(*ast.CallExpr)
+	if ok && len(c.Args) == 0 && frIsSel(c.Fun, "tcp", "") {
+		return c.Fun.(*ast.SelectorExpr).Sel.Name
+	}
+	die("%s: expected a tcp.With*() call", p.pos(e))
+	return ""
+}
+
+// genFrameTCPCommands: which filler options each tcp scan command passes.
+func genFrameTCPCommands(o *frOut) {
+	p := parseDir(filepath.Join(*repo, "command"))
+	o.note("command/tcp.go tcpPacketFlagOptions: --flags name -> filler option")
+	ml, ok := p.findVar("tcpPacketFlagOptions").(*ast.CompositeLit)
+	if !ok {
+		die("tcpPacketFlagOptions is not a map literal")
+	}
+	pairs := map[string]string{}
+	for _, el := range ml.Elts {
+		kv, ok := el.(*ast.KeyValueExpr)
+		if !ok {
+			die("%s: bad map entry", p.pos(el))
+		}
+		var name string
+		switch k := kv.Key.(type) {
+		case *ast.BasicLit:
+			name = stringLitFr(p, k)
+		case *ast.Ident:
+			name = stringLitFr(p, p.findConst(k.Name))
+		default:
+			die("%s: bad map key", p.pos(el))
+		}
+		if _, dup := pairs[name]; dup {
+			die("%s: duplicate flag name %s", p.pos(el), name)
+		}
+		pairs[name] = frWithCall(p, kv.Value)
+	}
+	var rows []string
+	for _, k := range sortedKeys(pairs) {
+		rows = append(rows, fmt.Sprintf("(%s, %s)", coqString(k), coqString(pairs[k])))
+	}
+	o.def("tcp_cli_flag_options", "list (string * string)", frZList(rows))
+
+	o.note("command/tcp*.go: arguments of withTCPPacketFillerOptions per source file (\"...\" = the --flags loop)")
+	byFile := map[string]string{}
+	var files []string
+	for fn := range p.files {
+		files = append(files, fn)
+	}
+	sort.Strings(files)
+	for _, fn := range files {
+		ast.Inspect(p.files[fn], func(n ast.Node) bool {
+			c, ok := n.(*ast.CallExpr)
+			if !ok {
+				return true
+			}
+			id, ok := c.Fun.(*ast.Ident)
+			if !ok || id.Name != "withTCPPacketFillerOptions" {
+				return true
+			}
+			if _, dup := byFile[fn]; dup {
+				die("%s: second withTCPPacketFillerOptions call in %s", p.pos(c), fn)
+			}
+			if c.Ellipsis.IsValid() {
+				// the --flags command: opts built by  for _, flag := range c.opts.tcpFlags { opts = append(opts, tcpPacketFlagOptions[flag]) }
+				if len(c.Args) != 1 {
+					die("%s: unexpected variadic call", p.pos(c))
+				}
+				v, ok := c.Args[0].(*ast.Ident)
+				if !ok {
+					die("%s: unexpected variadic argument", p.pos(c))
+				}
+				okLoop := false
+				ast.Inspect(p.files[fn], func(m ast.Node) bool {
+					rs, ok := m.(*ast.RangeStmt)
+					if !ok || len(rs.Body.List) != 1 {
+						return true
+					}
+					as, ok := rs.Body.List[0].(*ast.AssignStmt)
+					if !ok || len(as.Lhs) != 1 || len(as.Rhs) != 1 {
+						return true
+					}
+					l, ok := as.Lhs[0].(*ast.Ident)
+					ap, ok2 := as.Rhs[0].(*ast.CallExpr)
+					if !ok || !ok2 || l.Name != v.Name || len(ap.Args) != 2 {
+						return true
+					}
+					if f, ok := ap.Fun.(*ast.Ident); !ok || f.Name != "append" {
+						return true
+					}
+					ix, ok := ap.Args[1].(*ast.IndexExpr)
+					if !ok {
+						return true
+					}
+					mp, ok := ix.X.(*ast.Ident)
+					key, ok2 := ix.Index.(*ast.Ident)
+					val, ok3 := rs.Value.(*ast.Ident)
+					if ok && ok2 && ok3 && mp.Name == "tcpPacketFlagOptions" && key.Name == val.Name {
+						if s, ok := rs.X.(*ast.SelectorExpr); ok && s.Sel.Name == "tcpFlags" {
+							okLoop = true
+						}
+					}
+					return true
+				})
+				if !okLoop {
+					die("%s: the options of the --flags command are not built by the tcpPacketFlagOptions loop", p.pos(c))
+				}
+				byFile[fn] = "[\"...\"]"
+				return true
+			}
+			var ws []string
+			for _, a := range c.Args {
+				ws = append(ws, coqString(frWithCall(p, a)))
+			}
+			byFile[fn] = frZList(ws)
+			return true
+		})
+	}
+	var frows []string
+	for _, fn := range sortedKeys(byFile) {
+		frows = append(frows, fmt.Sprintf("(%s, %s)", coqString(fn), byFile[fn]))
+	}
+	o.def("tcp_scan_options", "list (string * list string)", frZList(frows))
+	// newTCPScanMethod appends tcp.WithFillerVPNmode(o.vpnMode)
+	nm := p.findFunc("tcpCmdOpts", "newTCPScanMethod")
+	okVpn := false
+	ast.Inspect(nm.Body, func(n ast.Node) bool {
+		c, ok := n.(*ast.CallExpr)
+		if ok && frIsSel(c.Fun, "tcp", "WithFillerVPNmode") && len(c.Args) == 1 {
+			if s, ok := c.Args[0].(*ast.SelectorExpr); ok && s.Sel.Name == "vpnMode" {
+				okVpn = true
+			}
+		}
+		return true
+	})
+	if !okVpn {
+		die("newTCPScanMethod does not pass tcp.WithFillerVPNmode(o.vpnMode)")
 	}
 }
 
@@ -975,5 +1217,6 @@ func genFrameConsts() {
 	genFrameICMP(o)
 	genFrameARP(o)
 	genFrameCLI(o)
+	genFrameTCPCommands(o)
 	writeIfChanged("FrameConsts.v", o.b.Bytes())
 }
